@@ -39,7 +39,8 @@ type Ctx struct {
 	siteMemo       map[*ssa.Function]ssa.CallInstruction
 	nilTestMemo    map[*ssa.Function]map[ssa.Value]int
 	anchorHint     *ssa.Function // the function a rule enumerated last (context for helpers shared by several callers)
-	inHint         bool
+	inHint      bool
+	noImports   bool
 	nonNegMemo     map[*types.Var]int
 	calledOnlyMemo map[*ssa.Function]bool
 	siteDone       map[*ssa.Function]bool
